@@ -122,7 +122,7 @@ func calmFamily(prop string) func(ctx *Ctx) *Result {
 					res.Stats["quiet_fixed_points"]++
 				}
 			}
-			if prop == "C12" && cr.Converged {
+			if prop == "C12" && (cr.Converged || cr.QuietButNotConverged) {
 				res.Stats["census_fixed_points_checked"]++
 				for _, d := range cr.CensusDiffs {
 					wit("census", "at the quiescent fixed point "+d)
